@@ -16,4 +16,32 @@ RULE = ("Cases = (function of the family, argument tuple, precision p). Argument
 ASSUMPTIONS = ["MPFR results are correctly rounded", "where only mpmath 1.3.0 is available as reference, an error shared by the pinned tree and 1.3.0 at every precision is invisible"]
 TECHNIQUE = "property-based testing (Hypothesis) against MPFR and a frozen higher-precision reference implementation"
 
-shards, gen_case, check_case = _special.make_module("C22", 4500, scale_max=6)
+_shards, _gen_case, check_case = _special.make_module("C22", 4500, scale_max=6)
+
+# Orthogonal polynomials at their special points: integer degrees of both signs (P_(-n-1) = P_n) at x = 0, +-1, +-1/2,
+# and within 2^-k of them -- the arguments for which these functions have dedicated branches (parity at zero, endpoint
+# values, near-zero cancellation).  Cheap, so one shard of many cases.
+_ORTHO = ["legendre", "legendre", "hermite", "chebyt", "chebyu"]
+
+
+def shards(tier):
+    return _shards(tier)[:-1] + [("ortho", 2500 if tier == "quick" else 60000)]
+
+
+def gen_case(d, shard, tier):
+    if shard != "ortho":
+        return _gen_case(d, shard, tier)
+    from ..exact import raw_json as J, mk, fzero
+    name = d.choice(_ORTHO)
+    n = d.int(-14, 14) if name == "legendre" else d.int(0, 14)
+    p = d.choice([20, 53, 53, 64, 113, 200]) if d.bool() else d.int(10, 300)
+    base = d.choice([0, 0, 0, 2, -2, 1, -1, 4, -4])          # in units of 1/2: 0, +-1, +-1/2, +-2
+    k = d.weighted([(3, "at"), (3, "near")])
+    if k == "at":
+        x = mk(1 if base < 0 else 0, abs(base), -1) if base else fzero
+    else:
+        kk = d.int(4, 2 * p)
+        m = (abs(base) << kk) + d.choice([1, -1, 3, -5]) if base else 1
+        x = mk((1 if base < 0 else 0) if base else d.int(0, 1), abs(m), -1 - kk)
+    args = [["int", n], ["mpf", J(x)]]
+    return {"name": name, "p": p, "args": args, "cls": "%s:%s" % (name, "special_" + k)}
